@@ -23,6 +23,23 @@ CLAIMED = {
    "Tree positions: every position field of trees parsed from generated programs (token offsets known to the printer) under multi-byte/CRLF/comment layouts; error positions: a (fault x wrapper) table and random nestings of injected load-time and run-time faults, each error position must lie inside the faulty statement and have consistent Ln/Col; lookup routines: exhaustive over all texts of length <= 7 over {a, LF, é} x all offsets; error chains: rendering, JSON round trip, copy isolation for random chains of 1..4 positions.",
    "Trusted: the harness printer's offsets. Whether a fault must be reported at all is left to C02/C04/C08/C11; C17 checks where it is reported.",
    "property-based testing with a position-recording printer as oracle; exhaustive enumeration for the lookup routines"),
+
+ "C01": ("exploration",
+   "Random hostile programs over the whole grammar (ill-typed operands, extreme constants, extreme/reversed slice bounds, bad index keys, object-less index, value-less constructs in value position, every builtin in every accepted argument shape, typed uses of point keys after builtins changed them) crossed with random points (all field types, non-UTF-8 strings, tags overlapping identifiers); thorough adds native coverage-guided fuzzing of source text through the real loader. Oracle: Run returns, any error is a positioned script error. The search space is far beyond what unit tests sample; a crash needs one witness.",
+   "Resource exhaustion (exponential string growth, unbounded loops) is excluded by a model-side size budget and a counting signal; nesting depth bounded. No claim about programs outside the generator's shapes.",
+   "property-based testing (rapid) + coverage-guided fuzzing with a no-crash / well-formed-error oracle"),
+ "C02": ("exploration",
+   "Exhaustive operator x operand-pair table (14 binary operators x 33^2 ordered operand pairs x literal/variable/point-key delivery, compound assignments, unary operators, short-circuit table with probes) plus random expression trees with pval() probes; every outcome is compared with a reference model of the operator semantics in value, Go type, evaluation order/count and error presence, both through the probe and through the field written by add_key.",
+   "Rows the reference leaves open accept either alternative (listed in DESIGN.md 3.2); a change between two accepted alternatives is not detected by design. Errors compared by presence and location, not text.",
+   "exhaustive table enumeration + model-based property testing (rapid) against a reference interpreter"),
+ "C03": ("exploration",
+   "Random programs of nested branches, all 8 for shapes, for-in over list/string/map/point values, break/continue, assignments to new/outer/shadowing names overlapping point keys, with probes after statements; the ordered probe trace, error presence/location and final point must equal the reference model's. Plus an exhaustive truthiness table (33 values x if/elif/for/point-key conditions).",
+   "Loops terminate by construction (counter bounded <= 3, nesting <= 3); programs whose outcome depends on map iteration order are discarded (counted).",
+   "model-based property testing (rapid) with trace comparison"),
+ "C04": ("exploration",
+   "Exhaustive slices (17 subjects x 22^3 bounds, 16 syntactic/delivery forms; quick: all extreme-bound cases + 1/8 stride), exhaustive index paths of depth<=3 over two nested shapes x 19 keys x {read, write, compound write, write through alias}, random alias/mutation/snapshot programs incl. load_json values; compared with the reference model (CPython slice algorithm, reference sharing, add_key JSON snapshot).",
+   "Non-ASCII string slices accept byte-wise or rune-wise results (reference silent); nil-valued bounds accept omitted-or-error.",
+   "bounded exhaustive enumeration + model-based property testing (rapid)"),
 }
 PENDING_REASON = "check not built yet at this commit (work in progress; see DESIGN.md section 4 for the planned PBT design)"
 
